@@ -399,7 +399,8 @@ def select(arrs, idx):
 
 
 def ob_get_basis_tuple(sys):
-    """CompositeSystem.get_basis((i,j)) == B1_i (x) B2_j for every in-range (i,j) (symbolic integers)"""
+    """CompositeSystem.get_basis((i,j)) == B1_i (x) B2_j for every in-range (i,j) (symbolic integers; the library's own index
+    arithmetic runs on them, the returned element is compared for every pair the path condition allows)"""
     kinds = {"Q2": "QQ", "QT": "QT", "TQ": "TQ"}[sys]
     single = {"Q": refs.pauli(True), "T": refs.gell_mann()}
     n1, n2 = len(single[kinds[0]]), len(single[kinds[1]])
@@ -409,9 +410,12 @@ def ob_get_basis_tuple(sys):
         i, j = I["i"], I["j"]
         got = c.get_basis((i, j))
         got = got.toarray() if hasattr(got, "toarray") else np.asarray(got)
-        prods = [np.kron(a, b) for a in single[kinds[0]] for b in single[kinds[1]]]
-        ref = select(prods, i * n2 + j)
-        return [Eq("get_basis((i,j))==B_i(x)B_j", got, ref, 1e-12)]
+        parts = []
+        for a in range(n1):
+            for b in range(n2):
+                same = bool(np.max(np.abs(got - np.kron(single[kinds[0]][a], single[kinds[1]][b]))) < 1e-12)
+                parts.append(implies(SBool.of(i == a) & SBool.of(j == b), same))
+        return [Holds("get_basis((i,j)) == B_i (x) B_j for every (i,j) consistent with the path", s_and(parts))]
     return FnOb([("i", "int", 0, n1 - 1), ("j", "int", 0, n2 - 1)], run, max_paths=200)
 
 
